@@ -104,9 +104,36 @@ def tag_instances(tier, seed):
             out.append(make_instance(0, sc, gen_graph(rng, sc, 5), q, {}, cls={"family": "tags", "uses": ["multi_import", kind]}))
     return out
 
+def nesting_instances(tier, seed):
+    """every triple of edge modes (plain / optional / fold / recurse) nested three deep, each level with an output (folds also with a count output),
+    over graphs in which some vertices lack the edge - the directive interactions (a fold under a missing optional inside a fold, a recursion
+    under an optional, an optional under a recursion, ...) enumerated instead of left to chance; a second variant tags the root and filters the innermost level"""
+    import itertools, foldfam
+    sc = VS1(); rng = random.Random(seed * 97 + 13)
+    graphs = [foldfam.fold_graph(sc, 4), gen_graph(rng, sc, 5), gen_graph(rng, sc, 4)]
+    modes = ["plain", "optional", "fold", "recurse"]
+    edges_by_level = ["next", "peer", "next"]
+    out = []
+    for triple in itertools.product(modes, repeat=3):
+        for variant in ("outputs", "tag_to_innermost"):
+            if tier == "quick" and variant == "tag_to_innermost" and rng.random() < 0.5: continue
+            node = None
+            for lvl in (2, 1, 0):
+                m = triple[lvl]; al = "abc"[lvl]
+                props = [prop_node("val", outputs=[f"v{lvl}"])]
+                if lvl == 2 and variant == "tag_to_innermost": props.append(prop_node("id", filters=[FTag(">=", "t")]))
+                e = edge_node(edges_by_level[lvl], m, depth=2 if m == "recurse" else 0, alias=al, props=props, edges=[node] if node else [])
+                if m == "fold": e["count"] = {"filters": [], "outputs": [{"name": f"n{lvl}"}], "tags": []}
+                node = e
+            rootprops = [prop_node("id", outputs=["rid"])] + ([prop_node("val", tags=["t"])] if variant == "tag_to_innermost" else [])
+            q = edge_node("Nodes", props=rootprops, edges=[node])
+            g = graphs[len(out) % len(graphs)]
+            out.append(make_instance(0, sc, g, q, {}, cls={"family": "nesting", "modes": list(triple), "variant": variant}))
+    return out
+
 def systematic_instances(tier, seed):
     import hintfam, foldfam
-    out = rec_instances(tier, seed) + tag_instances(tier, seed)
+    out = rec_instances(tier, seed) + tag_instances(tier, seed) + nesting_instances(tier, seed)
     h = hintfam.hint_instances(tier, seed); f = foldfam.fold_instances(tier, seed)
     out += h[::3] if tier == "quick" else h
     out += f[::5] if tier == "quick" else f[::2]
